@@ -12,7 +12,8 @@
 // saw per connection, the error and the instant at which the stages return, the writes to
 // the notification log.  What is judged: the clauses of DeliveryRetry.tla over the OBSERVED
 // run (what happened in an attempt is derived from the observations, not from the script),
-// with a tolerance of tolMs for every bound.  A candidate violation is re-run twice and is
+// with a tolerance of tolMs for every upper bound (100 ms for the lower bound of a back-off
+// gap, judged from the 4th gap on).  A candidate violation is re-run twice and is
 // reported only when it shows every time.
 package c20p
 
